@@ -1401,6 +1401,8 @@ func main() {
 	out := flag.String("out", "", "output directory")
 	replay := flag.String("replay", "", "replay a case description (JSON file)")
 	deep := flag.Bool("deep", true, "include trees deeper than the proof verifier's limit")
+	mode := flag.String("mode", "ckpt", "ckpt: checkpoints end to end; restorer: restorer bookkeeping schedules")
+	ncases := flag.Int("cases", 60, "restorer mode: number of schedules")
 	flag.Parse()
 	if *out == "" {
 		fmt.Fprintln(os.Stderr, "need -out")
@@ -1412,6 +1414,25 @@ func main() {
 		panic(err)
 	}
 	defer os.RemoveAll(tmpRoot)
+
+	if *replay != "" {
+		// the case description tells which stream it belongs to
+		if b, err := os.ReadFile(*replay); err == nil && bytes.Contains(b, []byte("\"events\"")) {
+			*mode = "restorer"
+		} else if err == nil && bytes.Contains(b, []byte("\"frame\"")) {
+			*mode = "frame"
+		} else {
+			*mode = "ckpt"
+		}
+	}
+	if *mode == "restorer" {
+		restorerMain(*seed, *ncases, *out, *replay)
+		return
+	}
+	if *mode == "frame" {
+		frameMain(*seed, *ncases, *out, *replay)
+		return
+	}
 
 	hdr := "From Verif Require Import Lib.Base Mkvs.Trie Ckpt.Model Ckpt.Stack.\n"
 	wb := coqout.NewWriter(*out, hdr, "run_both", "ck_eqb", 12)
